@@ -161,7 +161,14 @@ void run_vector(Ctx &c) {
 		case 7: { size_t n = t.pick(4) ? t.pick(12) : t.pick(70); c.op("v%d.resize(%zu)", s, n); v.resize(n); if(n < ref[s].size()) f.released_before_end = true; ref[s].resize(n, 0); break; }
 		case 8: { size_t n = t.pick(4) ? t.pick(12) : t.pick(70); int x = nextv++; const T e(x); c.op("v%d.resize(%zu, %d)", s, n, x); v.resize(n, e); if(n < ref[s].size()) f.released_before_end = true; ref[s].resize(n, x); break; }
 		case 9: c.op("v%d.clear()", s); v.clear(); if(!ref[s].empty()) f.released_before_end = true; ref[s].clear(); break;
-		case 10: { int d = t.pick(S); if(d == s) break; if(slot[d]) { c.op("destroy v%d", d); if(!ref[d].empty()) f.released_before_end = true; c.destroy(slot[d]); slot[d] = nullptr; ref[d].clear(); }
+		case 10: { uint32_t rd = t.next(); int d = rd % S; bool own_pool = (rd / S) % 4 == 3; if(d == s) break; if(slot[d]) { c.op("destroy v%d", d); if(!ref[d].empty()) f.released_before_end = true; c.destroy(slot[d]); slot[d] = nullptr; ref[d].clear(); }
+			if(own_pool) {
+				// a vector over an allocator handle of its own pool: swaps and assignments between vectors of different pools have to take the
+				// allocator along with the storage (a block goes back to the pool it came from - judged by the registry under C16)
+				c.op("v%d = vector(allocator of pool %d) filled with the elements of v%d", d, 20 + d, s); slot[d] = c.make<V>(track_alloc{20 + d});
+				for(int x : ref[s]) slot[d]->push(T(x));
+				ref[d] = ref[s]; c.tag("vector-own-pool"); break;
+			}
 			c.op("v%d = copy-construct(v%d)", d, s); slot[d] = c.make<V>(v); ref[d] = ref[s]; if(!ref[s].empty()) f.pair_op_nonempty = true; break; }
 		case 11: { int d = t.pick(S); if(d == s) break; if(slot[d]) { c.op("destroy v%d", d); c.destroy(slot[d]); slot[d] = nullptr; ref[d].clear(); }
 			c.op("v%d = move-construct(v%d)", d, s); std::vector<int> old = ref[s]; slot[d] = c.make<V>(std::move(v)); ref[d] = old; resync(v, ref[s]); break; }
@@ -189,7 +196,7 @@ void run_vector(Ctx &c) {
 			v.detach();
 			VCHECK(c, "C13", v.size() == 0 && v.empty(), "after detach() size() is %zu", v.size());
 			for(size_t i = 0; i < n; i++) { VCHECK(c, "C13", payload(stor[i]) == ref[s][i], "detach() changed element %zu of the storage it handed over", i); stor[i].~T(); }
-			if(stor) { track_alloc a{7}; a.free(stor); }       // (slot 0's pool; blocks of other pools are reported by the registry only under C16)
+			if(stor) { auto &own = reg().blk_owner; auto it = own.find(stor); track_alloc a{it == own.end() ? 7 : it->second}; a.free(stor); }       // (slot 0's pool; blocks of other pools are reported by the registry only under C16)
 			ref[s].clear(); f.released_before_end = true; break; }
 		// arguments that refer to an element of the container itself (std::vector supports all of them, also when the call reallocates)
 		case 19: case 20: case 21: case 22: if(!ref[s].empty()) { size_t k = t.pick(ref[s].size()); int x = ref[s][k]; const void *before_data = v.data();
